@@ -695,6 +695,11 @@ fn aggsig_from_votes<V: SignedVote>(
     AggregateSignature::new(sigs, indices, validators.len())
 }
 
+// verification hook (guard: cfg(kani), set only by `cargo kani`): harnesses live in /verif
+#[cfg(kani)]
+#[path = "/verif/units/validated/kani/cert_kani.rs"]
+pub(crate) mod verif_kani;
+
 #[cfg(test)]
 mod tests {
     use std::collections::HashSet;
